@@ -8,6 +8,7 @@
 //!   public state; the model is a function of the history alone.
 
 pub mod ftrl;
+pub mod layout;
 pub mod kmeans;
 pub mod nb;
 
@@ -24,7 +25,9 @@ pub fn property() -> Property {
                Mini-batch k-means: 1..=8 batches of 1..=30 rows, k 1..=4, precomputed or seeded (random, k-means++, k-means||) initialisation, distance function L2 / L1 / LInf (2:1:1), tolerance in {1e-6, 1e-2, 0.5, 2, 10}; \
                non-trivial = some cluster receives rows in at least 2 batches. \
                FTRL: 1..=10 batches of 1..=20 rows, 1..=5 features, alpha in {0.005, 0.1, 1}, beta in {0, 1}, l1/l2 in {0, 0.1, 0.5, 1}, seeded initial z, batches applied through fit_with or predict+update; \
-               non-trivial = at least 2 updates. distinct = distinct canonical JSON of the case",
+               non-trivial = at least 2 updates. Every record matrix handed to linfa (whole-data fit, every incremental batch, rows to predict) is laid out in memory as row-major owned, column-major owned, transposed view of a features x samples table, \
+               every-second-row-and-column view of a larger NaN-padded buffer, reversed-row view or reversed-column view (2:2:1:1:1:1; batch layouts cycle through a list of 1..=4); the logical content and the oracle do not depend on it. \
+               distinct = distinct canonical JSON of the case",
         assumptions: vec![
             "private naive-Bayes statistics are read through the public serde implementation (bincode round trip into a mirror struct {class_info: {label -> (class_count, prior, array, array)}}); no hook is used".into(),
             format!("Gaussian NB: means within {:e}*max|x|, variances within {:e}*(max|x|*spread + spread^2) + 1e-12*|sigma| of the two-pass population estimates; smoothing term = var_smoothing * largest per-feature population variance of the whole dataset (linfa's documented definition); counts and priors exact", nb::TOL_THETA, nb::TOL_SIGMA),
